@@ -7,6 +7,7 @@ import Nlmodel.Proofs.C08
 import Nlmodel.Proofs.Lemmas.RoundTrip
 import Nlmodel.Proofs.Lemmas.FloatText
 import Nlmodel.Proofs.Lemmas.ParsedFloats
+import Nlmodel.Proofs.Lemmas.ParseRange
 namespace Nl
 namespace C07
 
@@ -156,6 +157,33 @@ example : RTF.WB (.cons (.expr (.func ['f'] [['a'], ['b']]
     a literal of 309 digits; it prints as `inf.0`, which is not a number token: `F64T.not_floatRT_inf`.) -/
 theorem C07_float_literals_read_back (x : UInt64) (h : SimH.LitF x) (hfin : F64.isInf x = false) : RTF.FloatRT x :=
   F64T.floatRT_of_litF x h hfin
+
+/-! ### the round trip for every program anybody can write (`Lemmas/ParseRange.lean`) -/
+
+/-- THE PARSER'S RANGE: every tree the parser produces from any text — integer literals in range, prefix operators, what it
+    accepts as call target / index base / assignment target, the `+=` desugaring, `anders als` nesting, function literals —
+    is a tree of the round-trip theorem (`RTF.WB`), provided its float literals are finite (the ONE gap: a 309-digit literal
+    denotes `+inf`, whose printed form `inf.0` is not a number — `PR.range_gap_source`).  By induction over all seven parser
+    functions. -/
+theorem C07_parser_range (cc : CharClass) (src : Text) (ast : Block) (h : parse cc src = .ok ast) (hfin : ast.AllFinF) :
+    RTF.WB ast :=
+  PR.parse_range cc src ast h hfin
+
+/-- PARSING IS A RETRACTION OF PRINTING ON ALL PARSED PROGRAMS: every program that parses, printed with minimal parentheses
+    and spelled as text under ANY layout (blanks, tabs, newlines, Unicode whitespace, comments, nothing where maximal munch
+    allows), parses to the same tree again — the spellability side condition of the text round trip is discharged for parsed
+    trees (`PR.print_wf`: identifiers came out of the tokenizer, float literals have the form digits `.` digits) -/
+theorem C07_parse_print_parse (cc : CharClass) (hcc : LR.CCWF cc) (src : Text) (ast : Block) (h : parse cc src = .ok ast)
+    (hfin : ast.AllFinF) (ks : List Nat) :
+    parseTokens (printProgram ast) = .ok ast ∧ parse cc (render (printProgram ast) ks) = .ok ast :=
+  ⟨PR.parse_print_parse cc src ast h hfin, PR.parse_render_print cc hcc src ast h hfin ks⟩
+
+/-- ONE TREE PER MEANING OF THE TEXT: two texts have the same tree if and only if their canonical prints are the same token
+    list — layout, comments, redundant parentheses, optional `;` and `,` never matter, and nothing else is identified -/
+theorem C07_same_tree_iff_same_print (cc : CharClass) (src1 src2 : Text) (a1 a2 : Block)
+    (h1 : parse cc src1 = .ok a1) (h2 : parse cc src2 = .ok a2) (f1 : a1.AllFinF) (f2 : a2.AllFinF) :
+    a1 = a2 ↔ printProgram a1 = printProgram a2 :=
+  PR.same_tree_iff_same_print cc src1 src2 a1 a2 h1 h2 f1 f2
 
 end C07
 end Nl
